@@ -36,7 +36,7 @@ def default_quick_also(i):
     if n.startswith("fn.m_concat") or n.startswith("fn.m_count.s") or n.startswith("let.iterator"): return ["C05", "C01"]
     if n.startswith("capi.accessors"): return ["C01"]
     if n.startswith("store."): return ["C02", "C01"]
-    if n.startswith("c07.begin.k1.c0") or n.startswith("c07.begin.k3.c2"): return ["C15", "C01", "C14"]
+    if n.startswith("c07.begin.k1.c0") or n.startswith("c07.begin.k3.c2"): return ["C15", "C01", "C14", "C06"]
     if n.startswith("c07.begin.k1") or n.startswith("c07.begin.k3") or n.startswith("c07.begin.k5.c0"): return ["C15", "C01"]
     if n.startswith("c06.for.step") or n.startswith("c06.for.first.auto") or n.startswith("c06.forall.final"): return ["C01", "C07"]
     if n.startswith("c11.parsingend"): return ["C02"]
